@@ -262,7 +262,7 @@ def _uf(name, arg, side=None):
     if side is not None and it is not None:
         for kind, cond in side(a):
             it.side_condition(kind, cond, name)
-    return SV(V.UF[name](a), _elem(arg))
+    return SV(V.UF[name](a), _elem(arg), getattr(arg, "tags", None))
 
 
 @entry("jax.numpy.exp", "math.exp", tier="T2")
@@ -332,7 +332,7 @@ def m_softplus(x):
         return math.log1p(math.exp(x))
     # log(1+exp x): argument of log is > 0 for every real x, no side condition on the value
     a = to_real(lift(x))
-    return SV(V.UF["log"](1 + V.UF["exp"](a)), _elem(x))
+    return SV(V.UF["log"](1 + V.UF["exp"](a)), _elem(x), getattr(x, "tags", None))
 
 
 @entry("jax.numpy.abs", "jax.numpy.absolute")
@@ -346,7 +346,7 @@ def m_sign(x):
         return (x > 0) - (x < 0)
     a = lift(x)
     one, zero = (z3.IntVal(1), z3.IntVal(0)) if a.sort() == V.I else (z3.RealVal(1), z3.RealVal(0))
-    return SV(z3.If(a > 0, one, z3.If(a < 0, -one, zero)), _elem(x))
+    return SV(z3.If(a > 0, one, z3.If(a < 0, -one, zero)), _elem(x), getattr(x, "tags", None))
 
 
 @entry("jax.numpy.where")
@@ -636,13 +636,35 @@ def m_broadcast_shapes(*shapes):
     return out
 
 
+def _retag(a, shape):
+    """the same values seen with shape `shape` (a scalar becomes a generic-element tensor whose every element is that scalar)"""
+    if isinstance(a, SV):
+        if shape == ():
+            return a
+        return SV(a.e, True, dict(a.tags or {}, shape=shape))
+    if _is_num(a) and shape != ():
+        return SV(V.lift(a), True, {"shape": shape})
+    return a
+
+
 @entry("jax.numpy.broadcast_arrays")
 def m_broadcast_arrays(*arrs):
-    return list(arrs)
+    shapes = []
+    for a in arrs:
+        if isinstance(a, SV):
+            shapes.append(a.shape)
+        elif _is_num(a):
+            shapes.append(())
+        else:
+            return list(arrs)  # other model values: shapes handled by their own classes
+    shape = m_broadcast_shapes(*shapes)
+    return [_retag(a, shape) for a in arrs]
 
 
 @entry("jax.numpy.broadcast_to")
 def m_broadcast_to(a, shape):
+    if isinstance(a, SV) or _is_num(a):
+        return _retag(a, tuple(shape) if isinstance(shape, (tuple, list)) else shape)
     return a
 
 
